@@ -237,6 +237,11 @@ class Gen:
             self.mref("mth", "module", {"module": "math"})
         if rnd.random() < 0.3:
             self.mref("gt", "tuple", {"tuple": [{"lit": rnd.randint(1, 5)} for _ in range(3)]})
+        if self.f["itemspaces"] and rnd.random() < 0.3:
+            # a model-level reference named like the parameter of P: the cells of P then evaluate in the static
+            # space too (with this value) and differently in every instance - static and dynamic counterparts of a
+            # cells become distinguishable by value
+            self.mref("p", "int", {"lit": rnd.randint(60, 69)})
         A = self.space("A", None)
         self.fill(A, TOP_POOL)
         plan = []
@@ -464,6 +469,11 @@ class Gen:
                 continue
             sp.cells[name] = True
             self.emit(op)
+            if self.f["objrefs"] and sp.in_param_tree() and name not in NOT_CALLABLE and "o4" not in sp.vis_refs() \
+                    and rnd.random() < 0.35:
+                # an absolute reference to a cells of the parametrised tree itself: in an instance it keeps denoting
+                # the static cells (the cells created after it may call through it)
+                self.ref(sp, "o4", "cell:" + name, {"cell": sp.path + "." + name}, mode="absolute")
 
     def late(self):
         rnd = self.rnd
